@@ -12,6 +12,11 @@ NOTE = ("Trusted: Lean 4.33.0 kernel (thorough tier re-checks the .olean files w
         "floating point is outside the theorems (exact inputs or stated tolerance).")
 # property id -> (technique, level text, design ref)   -- only properties whose check exists
 CLAIMED = json.load(open(os.path.join(V, 'tools', 'claimed.json')))
+cd = os.path.join(V, 'tools', 'claimed.d')
+if os.path.isdir(cd):
+    for f in sorted(os.listdir(cd)):
+        if f.endswith('.json'):
+            CLAIMED.update(json.load(open(os.path.join(cd, f))))
 checks, na = [], []
 for p in props:
     pid = p['id']
